@@ -86,6 +86,15 @@ def main():
         shutil.copy(demo, d / "demo.py")
         if rep.exists():
             shutil.copy(rep, d / "REPORT.md")
+        old = d / "meta.json"
+        if old.exists():      # keep the hand-written annotations of an earlier verification
+            try:
+                prev = json.loads(old.read_text())
+                for k in ("summary", "note"):
+                    if k in prev and k not in meta:
+                        meta[k] = prev[k]
+            except Exception:
+                pass
         (d / "meta.json").write_text(json.dumps(meta, indent=1))
     slim = {k: v for k, v in meta.items() if k != "needs_to_manifest"}
     for c in slim.get("checks", {}).values():
